@@ -205,6 +205,8 @@ def _build(p):
     op = p['op']
     a = mats[0]
     b = mats[1] if len(mats) > 1 else None
+    if p.get('self2'):
+        b = a          # the SAME Matrix object in both operand positions
     if p.get('inplace'):
         # history on one object: observe it (to_wirevector / copy / element read), then update in place
         a.to_wirevector()
@@ -289,6 +291,8 @@ def _build(p):
 
 def _spec(o, p, ins):
     ms = [decode(o, ins['m%d' % k], r, c, b) for k, (r, c, b) in enumerate(p['shapes'])]
+    if p.get('self2'):
+        ms = [ms[0], ms[0]]
     shp = _SHAPE[_key(p)]
     r = ref(o, p, ms)
     exact = p['op'] in EXACT and not p.get('saturates_max_bits')
@@ -318,6 +322,8 @@ def _shape_lens(p):
     """expected result shape, from the reference operation on zero matrices (0 x 0 = scalar)"""
     from spec.ops import IntOps
     ms = [[[0] * c for _ in range(r)] for (r, c, b) in p['shapes']]
+    if p.get('self2'):
+        ms = [ms[0], ms[0]]
     r = ref(IntOps, p, ms)
     if not isinstance(r, list):
         return {'rows': 1, 'cols': 1}
